@@ -1,5 +1,5 @@
 (* One entry point for the harness: request (list Z) -> reply (list Z). *)
-From JP Require Import Base.Json Extract.Wire Extract.WireAst Model.Slice Spec.Slice Model.Ast Model.Eval Spec.Sem Spec.Compare Model.Tokens Model.Lex Model.PyFloat Model.Parse Model.Api Spec.Rfc9535Grammar Spec.Types Spec.StringLit.
+From JP Require Import Base.Json Extract.Wire Extract.WireAst Model.Slice Spec.Slice Model.Ast Model.Eval Spec.Sem Spec.Compare Model.Tokens Model.Lex Model.PyFloat Model.Parse Model.Api Spec.Rfc9535Grammar Spec.Types Spec.StringLit Model.Position Spec.Position.
 
 Definition iota_json (len : Z) : list json := map (fun k => JNum (NInt (Z.of_nat k))) (seq 0 (Z.to_nat len)).
 Definition enc_sel (r : list (Z * json)) : list Z := enc_list (fun p => fst p :: enc_json (snd p)) r.
@@ -91,18 +91,41 @@ Definition op_strlit (r : list Z) : list Z :=
   | _ => bad_request
   end.
 
+(* [19; text] -> compile with the built-ins; on error: class, offset, line, column *)
+Definition op_errpos (r : list Z) : list Z :=
+  match dec_str r with
+  | Some (q, _) =>
+      match m_compile {| min_idx := - (2 ^ 53) + 1; max_idx := 2 ^ 53 - 1; max_depth := 100; reg := builtin_registry; rx := fun _ _ _ => false |} q with
+      | Ok _ => [0]
+      | Err c (Some o) => let '(ln, col) := m_position q o in [1; jperr_code c; o; ln; col]
+      | Err c None => [1; jperr_code c; -99]
+      | Crash x => [2; pyexn_code x]
+      | OutOfFuel => [3]
+      end
+  | None => bad_request end.
+(* [119; offset; text] -> line, column by the specification *)
+Definition op_linecol (r : list Z) : list Z :=
+  match r with
+  | o :: r0 => match dec_str r0 with
+               | Some (q, _) => [line_of q (Z.to_nat o); col_of q (Z.to_nat o)]
+               | None => bad_request end
+  | _ => bad_request
+  end.
+
 (* opcodes: model side 1..99, specification side 101..199 *)
 Definition dispatch (req : list Z) : list Z :=
   match req with
   | 1 :: r => op_tokenize r
   | 2 :: r => op_compile r
   | 3 :: r => op_find r
+  | 19 :: r => op_errpos r
   | 20 :: r => op_float r
   | 103 :: r => op_sem r
   | 104 :: r => op_in_rfc r
   | 106 :: r => op_cmp r
   | 109 :: r => op_valid r
   | 110 :: r => op_strlit r
+  | 119 :: r => op_linecol r
   | 7 :: len :: r =>        (* slice selector on [0, 1, ..., len-1] *)
     match dec_opt dec_z r with Some (s, r1) =>
     match dec_opt dec_z r1 with Some (e, r2) =>
